@@ -287,6 +287,7 @@ func runC13(c C13Case) *Result {
 		}
 	}
 	type mk func(data []byte) io.Reader
+	trailing := bytes.Repeat([]byte{0xA5, 0x01, 0x00, 0xFF, 0x20}, 1800) // 9000 bytes that are not part of the stream
 	chunkings := []struct {
 		name string
 		mk   mk
@@ -297,6 +298,10 @@ func runC13(c C13Case) *Result {
 		{"data-with-eof", func(d []byte) io.Reader { return iotest.DataErrReader(bytes.NewReader(d)) }},
 		{"random-chunks", func(d []byte) io.Reader { return &chunkReader{data: d, sizes: c.Chunks} }},
 		{"random-chunks-data-with-eof", func(d []byte) io.Reader { return &chunkReader{data: d, sizes: c.Chunks, eofWithData: true} }},
+		// the stream is followed by other data in the same reader (several objects in one file):
+		// restore must consume exactly its own bytes
+		{"whole+trailing-data", func(d []byte) io.Reader { return bytes.NewReader(append(d, trailing...)) }},
+		{"random-chunks+trailing-data", func(d []byte) io.Reader { return &chunkReader{data: append(d, trailing...), sizes: c.Chunks} }},
 	}
 	for _, ch := range chunkings {
 		cr := &countingReader{r: ch.mk(append([]byte(nil), stream...))}
